@@ -27,6 +27,10 @@ type ShardOpts struct {
 	Watchdog  time.Duration // a case in flight longer than this is a stall (0 = 60s)
 	MemLimit  uint64        // address-space limit per worker in bytes (0 = none)
 	ExtraArgs []string
+	// ExtraArgsNow, if set, supplies additional worker arguments each time a worker is (re)started.
+	ExtraArgsNow func() []string
+	// WatchdogNow, if set, overrides Watchdog each time a worker is (re)started.
+	WatchdogNow func() time.Duration
 	// OnDeath is called in the parent when a worker died (or stalled) while case i was in flight.
 	// kind is "exit", "stall"; stderrTail is the end of the worker's stderr.
 	OnDeath func(i int, kind string, stderrTail string)
@@ -219,7 +223,11 @@ func (r *Run) Sharded(n int, runCase func(i int), opts ShardOpts) {
 			defer wg.Done()
 			resume := 0
 			for {
-				died, at, kind, tail := r.runWorker(k, workers, resume, -1, dir, wd, opts)
+				w := wd
+				if opts.WatchdogNow != nil {
+					w = opts.WatchdogNow()
+				}
+				died, at, kind, tail := r.runWorker(k, workers, resume, -1, dir, w, opts)
 				if !died {
 					return
 				}
@@ -253,6 +261,9 @@ func (r *Run) runWorker(k, of, resume, only int, dir string, wd time.Duration, o
 		args = append(args, "--only", strconv.Itoa(only))
 	}
 	args = append(args, opts.ExtraArgs...)
+	if opts.ExtraArgsNow != nil {
+		args = append(args, opts.ExtraArgsNow()...)
+	}
 	cmd := exec.Command(os.Args[0], args...)
 	cmd.Env = append(os.Environ(), "GOMAXPROCS=2", "GOGC=400", fmt.Sprintf("VERIF_SEED=%d", r.Seed))
 	if opts.MemLimit > 0 {
